@@ -860,7 +860,7 @@ class DFA:
                         local_symbolset |= i.compute_foreign_else_definition(condition_point)
                     for symbol in local_symbolset:
                         transition = i[symbol]
-                        if transition in visited:
+                        if transition is None or transition in visited: # (a branch that ends the program has no transition at all)
                             continue
                         visited.add(transition)
                         if not transition.error_handling:
